@@ -372,6 +372,12 @@ func nsWalkRules(c *Ctx, prop string) (*report.Result, error) {
 		}
 		res.RuleDoc[rs] = "translation and access control keep no memory between messages: no shipped function of the interceptor, proto/compat, auth and collect packages stores into package-level state, receiver fields or sync.Maps after construction - a cache keyed by message type or content (or a 'reported once' set) makes the treatment of one message depend on the ones before it"
 		checkStateless(c, res, rs, []string{"interceptor", "proto/compat", "auth", "collect"}, map[string]string{})
+		re := "O12.7"
+		if prop == "C16" {
+			re = "O16.8"
+		}
+		res.RuleDoc[re] = "no swallowed error in the files the mechanism lives in: no function returns a nil error on a path on which an error obtained from a call is known to be non-nil (io.EOF from a stream Recv, the normal end of a receive loop, is the one accepted idiom)"
+		checkNoSwallowedErrors(c, res, re, []string{"interceptor/reflection.go", "interceptor/translator.go", "interceptor/translation_interceptor.go", "interceptor/access_control.go"})
 	}
 
 	if prop == "C12" {
